@@ -25,7 +25,9 @@ PATS = ["*.o", "d", "./d/f", "!g.o"]
 CTL = {"bzr": ".bzr", "git": ".git"}
 IGN = {"bzr": ".bzrignore", "git": ".gitignore"}
 FMT = {"bzr": "2a", "git": "git"}
-WITNESSES = ("WitnessNamedIgnored", "WitnessNestedSkipped", "WitnessHelperSkipped")
+WITNESSES = {"bzr": {"NamedIgnored", "NestedSkipped", "HelperSkipped", "HelperAddedWithoutConflict", "VersionedOverridesIgnore",
+                     "IgnoredDirSkipped"},
+             "git": {"NamedIgnored", "NestedSkipped", "HelperSkipped", "HelperAddedWithoutConflict", "IgnoredDirSkipped"}}
 
 
 def consts(fl, ignsets, maxargs=2):
@@ -169,13 +171,9 @@ def run(ctx):
     allsets = [[p for i, p in enumerate(PATS) if m >> i & 1] for m in range(16)]
     jobs = []
     for fl in ("bzr", "git"):
-        # anti-vacuity witnesses on a small slice of the space
-        small = consts(fl, [[], ["*.o", "d"]], 1)
-        for w in WITNESSES + (("WitnessVersionedOverridesIgnore",) if fl == "bzr" else ()):
-            tlc.check(ctx, "SmartAddGen", cfg_text=table.cfg(small, (w,)), expect_violation=w,
-                      label="witness %s %s" % (w, fl), workers=4)
-        if ctx.quick:
-            groups = [ctx.rng.sample(allsets, 2)]
+        if ctx.quick:       # two lists on which every witness occurs, and one seeded other list
+            fixed = [["*.o"], ["d"]]
+            groups = [fixed + [ctx.rng.choice([x for x in allsets if x not in fixed])]]
         else:
             groups = [allsets[i:i + 4] for i in range(0, 16, 4)]
         cases = []
@@ -185,6 +183,9 @@ def run(ctx):
             cases.extend(got)
         if not cases:
             ctx.machinery("SmartAddGen exported no cases for %s" % fl)
+        seen = set().union(*(k["wit"] for k in cases))
+        if WITNESSES[fl] - seen:
+            ctx.machinery("vacuity guard: no generated %s case satisfies %s" % (fl, sorted(WITNESSES[fl] - seen)))
         cases.sort(key=lambda k: repr(sorted(k["c"].items())))
         ctx.cov.setdefault("generated", {})[fl] = len(cases)
         if ctx.quick:
